@@ -536,7 +536,9 @@ def main(tier, seed):
             tname, mname = r["expect_ctx"]
             want = "%s::%s" % (tname, mname) if mname else tname
             ctxs = [c.strip() for c, _ in r["det"]]
-            if not any(c == want or (mname is None and c.startswith(tname)) for c in ctxs):
+            # a type-level fault (field, trait declaration) is reported under the type alone: `<Type>::<method>` there would be the
+            # context of whatever method was lowered before it
+            if not any(c == want for c in ctxs):
                 chk.violation(name, "mutant %s rejected, but the error context is %s instead of %s" % (opname, ctxs[:3], want), payload(),
                               key={"operator": opname, "backend": b, "context": "wrong"})
         elif k == "panic" and "syn-inline-mod" in r["det"]["file"]:
